@@ -895,9 +895,20 @@ func c08Colons(c *Ctx, fn *ssa.Function) {
 			if !isB || bo.Op != token.EQL || !cf.Val {
 				continue
 			}
-			for _, side := range []ssa.Value{bo.X, bo.Y} {
+			for si, side := range []ssa.Value{bo.X, bo.Y} {
 				if g := loadedGlobal(unwrap(side, true)); g != nil && g.Pkg.Pkg.Path() == alignPkg {
 					arm = g.Name()
+					// the alignment compared must be this column's: not a value left over from an earlier column
+					other := []ssa.Value{bo.Y, bo.X}[si]
+					if h := innermostLoopHeader(in.Block()); h != nil {
+						for _, v := range phiClosure(other) {
+							_ = v
+						}
+						if carriedInto(other, h, map[ssa.Value]bool{}) {
+							r.Check("R08.4", FuncName(fn), "the alignment deciding column i's markers is column i's (own or default), decided afresh for each column", in.Pos(), false,
+								"the value compared can be the one left over from the previous column (a variable declared outside the loop and not reset)")
+						}
+					}
 				}
 				if isNil(side) {
 					arm = "nil"
@@ -1261,4 +1272,34 @@ func c05JoinShape(c *Ctx, emitRow *ssa.Function, p *prover, sites []*writeSite, 
 			"for a row without cells the record would start with a separator: one field too many, the first one unquoted")
 	}
 	return true
+}
+
+// carriedInto: v can be a value computed in an EARLIER iteration of the loop headed by h: it is, or is merged from,
+// a phi of h with an incoming back edge.
+func carriedInto(v ssa.Value, h *ssa.BasicBlock, seen map[ssa.Value]bool) bool {
+	if seen[v] {
+		return false
+	}
+	seen[v] = true
+	phi, ok := v.(*ssa.Phi)
+	if !ok {
+		return false
+	}
+	if phi.Block() == h {
+		for k, pred := range h.Preds {
+			if h.Dominates(pred) {
+				// a back edge: the incoming value is from the previous iteration, unless it is assigned on every path
+				// of the body (then the header phi is dead on entry to the use... but the merge still exists): treat
+				// the carried value as live when the phi itself is what is used
+				_ = k
+				return true
+			}
+		}
+	}
+	for _, e := range phi.Edges {
+		if carriedInto(e, h, seen) {
+			return true
+		}
+	}
+	return false
 }
